@@ -255,7 +255,7 @@ static_assert(sizeof(mpt::array) == sizeof(mpt::buffer *), "array layout");
 struct Mdl { const mpt::type_traits *tr; std::vector<uint8_t> b; };
 
 enum RK { C_APPEND, C_INSERT, C_SLICE, C_SET, C_RESERVE, C_REDUCE, C_PRINTF, C_STRING, C_CUT, C_BINSERT, C_BSET, C_CLONE, R_SWAP, S_ASSIGN, S_CLEAR, S_WRITE, S_TAKE, S_CONSUME,
-          X_APPEND, X_INSERT, X_PREPEND, X_SET, X_ASSIGN, X_CLEAR, X_FROMSLICE, X_ADD, X_PRINTF, X_STRING, X_SETVALUE, X_SETREF, XS_FROM, XS_CLEAR, XS_SHIFT, XS_TRIM, XS_WRITE, XS_TAKE, C_DETACH, C_HUGE, S_HUGE, X_HUGE };
+          X_APPEND, X_INSERT, X_PREPEND, X_SET, X_ASSIGN, X_CLEAR, X_FROMSLICE, X_ADD, X_PRINTF, X_STRING, X_SETVALUE, X_SETREF, XS_FROM, XS_CLEAR, XS_SHIFT, XS_TRIM, XS_WRITE, XS_TAKE, C_DETACH, C_HUGE, S_HUGE, X_HUGE, X_PREPARE };
 struct Inst { int k, a, b, c; };
 static const char *Pn[] = { "0", "1", "used-1", "used", "used+2", "used/2" };
 static const char *Ln[] = { "0", "1", "3", "left-1", "left", "left+1" };
@@ -267,11 +267,11 @@ static void build_tables()
 	pat_init();
 	std::vector<Inst> &c = g_tab[0], &x = g_tab[1];
 	for (int li = 0; li < 6; ++li) c.push_back(Inst{C_APPEND, li, 1, 0});
-	c.push_back(Inst{C_APPEND, 1, 0, 0}); c.push_back(Inst{C_APPEND, 5, 0, 0});
+	c.push_back(Inst{C_APPEND, 1, 0, 0}); c.push_back(Inst{C_APPEND, 5, 0, 0}); c.push_back(Inst{C_APPEND, 0, 2, 0}); c.push_back(Inst{C_APPEND, 1, 2, 0});
 	for (int pi = 0; pi < 6; ++pi) for (int li = 0; li < 6; ++li) c.push_back(Inst{C_INSERT, pi, li, 0});
 	for (int pi = 0; pi < 6; ++pi) for (int li = 0; li < 6; ++li) c.push_back(Inst{C_SLICE, pi, li, 0});
 	for (int di = 0; di < 7; ++di) c.push_back(Inst{C_DETACH, di, 0, 0});
-	for (int hi = 0; hi < 14; ++hi) c.push_back(Inst{C_HUGE, hi, 0, 0});
+	for (int hi = 0; hi < 15; ++hi) c.push_back(Inst{C_HUGE, hi, 0, 0});
 	c.push_back(Inst{S_HUGE, 0, 0, 0}); c.push_back(Inst{S_HUGE, 2, 0, 0});      // (a block count whose source the caller cannot own is no test input)
 	{ int ls[] = {0, 1, 2, 5}; for (int l : ls) for (int oi = 0; oi < 7; ++oi) c.push_back(Inst{C_SET, l, oi, 1}); c.push_back(Inst{C_SET, 2, 0, 0}); c.push_back(Inst{C_SET, 2, 5, 0}); }
 	for (int li = 0; li < 5; ++li) for (int t = 0; t < 4; ++t) c.push_back(Inst{C_RESERVE, li, t, (li + t) % 2});
@@ -291,7 +291,8 @@ static void build_tables()
 	c.push_back(Inst{S_WRITE, 1, 1, 0}); c.push_back(Inst{S_WRITE, 2, 2, 0}); c.push_back(Inst{S_WRITE, 1, 5, 0});
 
 	for (int li = 0; li < 6; ++li) x.push_back(Inst{X_APPEND, li, 1, 0});
-	x.push_back(Inst{X_APPEND, 1, 0, 0}); x.push_back(Inst{X_APPEND, 5, 0, 0});
+	x.push_back(Inst{X_APPEND, 1, 0, 0}); x.push_back(Inst{X_APPEND, 5, 0, 0}); x.push_back(Inst{X_APPEND, 0, 2, 0}); x.push_back(Inst{X_APPEND, 1, 2, 0}); x.push_back(Inst{X_APPEND, 0, 3, 0});
+	x.push_back(Inst{X_PREPARE, 0, 0, 0}); x.push_back(Inst{X_PREPARE, 1, 0, 0});
 	for (int pi = 0; pi < 5; ++pi) for (int li = 0; li < 6; ++li) x.push_back(Inst{X_INSERT, pi, li, (pi * 6 + li) % 5 ? 1 : 0});
 	x.push_back(Inst{X_PREPEND, 1, 1, 0}); x.push_back(Inst{X_PREPEND, 2, 0, 0});
 	for (int si = 0; si < 7; ++si) x.push_back(Inst{X_SET, si, si % 3 ? 1 : 0, 0});
@@ -459,7 +460,7 @@ template <int API> std::string RawSys<API>::opname(int op)
 {
 	const Inst &in = g_tab[API][op];
 	switch (in.k) {
-	case C_APPEND: return fmt("mpt_array_append(a0,%s,%s)", Ln[in.a], in.b ? "data" : "NULL");
+	case C_APPEND: return in.b == 2 ? fmt("mpt_array_append(a0,%s,a0's own data)", in.a ? "1" : "used") : fmt("mpt_array_append(a0,%s,%s)", Ln[in.a], in.b ? "data" : "NULL");
 	case C_INSERT: return fmt("mpt_array_insert(a0,%s,%s)", Pn[in.a], Ln[in.b]);
 	case C_SLICE: return fmt("mpt_array_slice(a0,%s,%s)+write", Pn[in.a], Ln[in.b]);
 	case C_SET: { static const char *on[] = { "0", "1", "-1", "-(n+1)", "n", "n+2", "n/2" }; return fmt("mpt_array_set(a0,type,%s,%s,%s)", Ln[in.a], in.c ? "data" : "NULL", on[in.b]); }
@@ -473,7 +474,7 @@ template <int API> std::string RawSys<API>::opname(int op)
 	case C_DETACH: { static const char *dn[] = { "0", "1 element", "used-1 element", "used", "used+1", "64", "65" }; return fmt("a0.buf->detach(%s)", dn[in.a]); }
 	case C_HUGE: { static const char *hn[] = { "mpt_array_insert(a0,SIZE_MAX-1,10)", "mpt_array_insert(a0,SIZE_MAX,1)", "mpt_array_insert(a0,LONG_MAX+1,1)", "mpt_buffer_insert(a0.buf,SIZE_MAX-1,10)", "mpt_buffer_insert(a0.buf,SIZE_MAX,1)",
 		"mpt_array_append(a0,SIZE_MAX-used,NULL)", "mpt_array_append(a0,SIZE_MAX-used-70,NULL)", "mpt_array_slice(a0,0,SIZE_MAX-10)", "mpt_array_slice(a0,used,SIZE_MAX-used-70)", "mpt_array_set(a0,type,1 element,data,LONG_MAX/size-100)",
-		"mpt_array_reserve(a0,SIZE_MAX-10,current type)", "a0.buf->detach(SIZE_MAX-10)", "mpt_buffer_cut(a0.buf,SIZE_MAX-1,2)", "mpt_buffer_set(a0.buf,SIZE_MAX-1,data,10)" }; return hn[in.a]; }
+		"mpt_array_reserve(a0,SIZE_MAX-10,current type)", "a0.buf->detach(SIZE_MAX-10)", "mpt_buffer_cut(a0.buf,SIZE_MAX-1,2)", "mpt_buffer_set(a0.buf,SIZE_MAX-1,data,10)", "mpt_array_set(a0,type,1 element,data,2^64/size)" }; return hn[in.a]; }
 	case S_HUGE: { static const char *hn[] = { "(2,data,2^63)", "(2^62+1,data,4)", "(SIZE_MAX-window end,NULL,0)" }; return std::string(in.b ? "slice::write" : "mpt_slice_write") + hn[in.a]; }
 	case X_HUGE: { static const char *hn[] = { "array::insert(SIZE_MAX-1,10,data)", "array::append(SIZE_MAX-used,NULL)", "array::set(SIZE_MAX-10,NULL)", "array::prepend(SIZE_MAX-10,NULL)" }; return hn[in.a]; }
 	case C_CLONE: return fmt("mpt_array_clone(a%d,%s)", in.a, in.b == 0 ? fmt("a%d", 1 - in.a).c_str() : (in.b == 1 ? "NULL" : "slice.array"));
@@ -484,7 +485,8 @@ template <int API> std::string RawSys<API>::opname(int op)
 	case XS_TAKE: return "slice=slice(a0);a0=array()";
 	case S_CONSUME: return in.a ? "slice.off+=len,len=0" : "slice.off+=1,len-=1";
 	case S_WRITE: case XS_WRITE: { static const char *zn[] = { "0", "1", "3", "avail-1", "avail", "avail+1", "avail+off" }; return fmt("%s(%d,%s,%s)", in.k == S_WRITE ? "mpt_slice_write" : "slice::write", in.a, in.c ? "data" : "NULL", zn[in.b]); }
-	case X_APPEND: return fmt("array::append(%s,%s)", Ln[in.a], in.b ? "data" : "NULL");
+	case X_APPEND: return in.b == 3 ? std::string("a0+=span(a0.base(),used)") : (in.b == 2 ? fmt("array::append(%s,a0.base())", in.a ? "1" : "used") : fmt("array::append(%s,%s)", Ln[in.a], in.b ? "data" : "NULL"));
+	case X_PREPARE: return fmt("encode_array(a0)::prepare(%s)", in.a ? "left+1" : "1");
 	case X_INSERT: return fmt("array::insert(%s,%s,%s)", Pn[in.a], Ln[in.b], in.c ? "data" : "NULL");
 	case X_PREPEND: return fmt("array::prepend(%s,%s)", Ln[in.a], in.b ? "data" : "NULL");
 	case X_SET: { static const char *sn[] = { "0", "1", "used-1", "used", "used+1", "cap", "cap+1" }; return fmt("array::set(%s,%s)", sn[in.a], in.b ? "data" : "NULL"); }
@@ -508,7 +510,7 @@ static const char *raw_hint(int k)
 	static const char *n[] = { "mpt_array_append", "mpt_array_insert", "mpt_array_slice", "mpt_array_set", "mpt_array_reserve", "mpt_array_reduce", "mpt_printf", "mpt_array_string",
 		"mpt_buffer_cut", "mpt_buffer_insert", "mpt_buffer_set", "mpt_array_clone", "swap", "slice=", "slice=", "mpt_slice_write", "slice=", "slice.off+=",
 		"array::append", "array::insert", "array::prepend", "array::set", "array::operator=", "array::operator=", "array::operator=(slice)", "array::operator+=", "array::printf", "array::string",
-		"array::set(value)", "array::set(reference)", "slice=", "slice=", "slice::shift", "slice::trim", "slice::write", "slice=", "buffer::detach", "huge-argument", "mpt_slice_write", "huge-argument" };
+		"array::set(value)", "array::set(reference)", "slice=", "slice=", "slice::shift", "slice::trim", "slice::write", "slice=", "buffer::detach", "huge-argument", "mpt_slice_write", "huge-argument", "encode_array::prepare" };
 	return n[k];
 }
 template <int API> bool RawSys<API>::apply(int op)
@@ -650,14 +652,19 @@ template <int API> bool RawSys<API>::apply_c(const Inst &in)
 
 	switch (in.k) {
 	case C_APPEND: {
-		if (!pick(L, in.a, len) || (size_t) len > PATN) return false;
-		pos = used; mk("array_append", argcls(used, len, used, cap, false)); nontrivial(b);
+		bool own = in.b == 2;      // source inside the array's own data (v.insert(v.end(), v.begin(), v.begin() + n) for a vector)
+		if (own) { if (!b || !used) return false; len = in.a ? 1 : (long) used; }
+		else if (!pick(L, in.a, len)) return false;
+		if ((size_t) len > PATN) return false;
+		const std::vector<uint8_t> add(own ? mb.begin() : mb.end(), own ? mb.begin() + len : mb.end());
+		pos = used; mk("array_append", argcls(used, len, used, cap, false) + (own ? ",own-content" : "")); nontrivial(b);
 		void *ret = 0;
-		fault = guarded([&] { mc::Lib l; ret = mpt_array_append(arr(0), len, in.b ? PAT : 0); });
+		fault = guarded([&] { mc::Lib l; ret = mpt_array_append(arr(0), len, own ? bdata(b) : (in.b ? PAT : 0)); });
 		if (!fault && ret) {
 			realloc_seen();
 			if (!ptr_ok(ret, used)) return bad_ptr(used);
-			mb.insert(mb.end(), in.b ? PAT : ZERO, (in.b ? PAT : ZERO) + len);
+			if (own) { mb.insert(mb.end(), add.begin(), add.end()); stat(used + len > cap ? "append-own-content,reallocating" : "append-own-content,in-place"); }
+			else mb.insert(mb.end(), in.b ? PAT : ZERO, (in.b ? PAT : ZERO) + len);
 		}
 		return check(base, desc, 0, !ret); }
 	case C_INSERT: case C_BINSERT: {
@@ -813,7 +820,8 @@ template <int API> bool RawSys<API>::apply_c(const Inst &in)
 		// offsets / lengths near SIZE_MAX or LONG_MAX: nothing of the kind lies inside any data, the size arithmetic must not wrap; all must be refused
 		const size_t SM = SIZE_MAX;
 		const type_traits *ST = b && b->_content_traits ? b->_content_traits : T_Y;
-		static const char *on[] = { "array_insert", "array_insert", "array_insert", "buffer_insert", "buffer_insert", "array_append", "array_append", "array_slice", "array_slice", "array_set", "array_reserve", "buffer_detach", "buffer_cut", "buffer_set" };
+		static const char *on[] = { "array_insert", "array_insert", "array_insert", "buffer_insert", "buffer_insert", "array_append", "array_append", "array_slice", "array_slice", "array_set", "array_reserve", "buffer_detach", "buffer_cut", "buffer_set", "array_set" };
+		if (in.a == 14 && b && E == 1) return false;      // needs an element size above one byte for the product to wrap
 		if ((in.a == 3 || in.a == 4 || in.a == 12 || in.a == 13) && !sole) return false;
 		if (in.a == 11 && !b) return false;
 		mk(on[in.a], "beyond-address-range"); nontrivial(b);
@@ -833,7 +841,9 @@ template <int API> bool RawSys<API>::apply_c(const Inst &in)
 			case 10: accepted = mpt_array_reserve(arr(0), SM - 10, b ? b->_content_traits : 0) != 0; break;
 			case 11: { mpt::buffer *nb = b->detach(SM - 10); if (nb) { h[0].b = nb; accepted = true; } break; }
 			case 12: accepted = mpt_buffer_cut(b, SM - 1, 2) >= 0; break;
-			default: accepted = mpt_buffer_set(b, b->_content_traits, SM - 1, PAT, 10) >= 0; } });
+			case 13: accepted = mpt_buffer_set(b, b->_content_traits, SM - 1, PAT, 10) >= 0; break;
+			default: { const type_traits *WT = b ? b->_content_traits : T_I;      // element offset whose byte position is 2^64
+				accepted = mpt_array_set(arr(0), WT, WT->size, PAT, (long) (((size_t) 1 << 63) / (WT->size / 2))) != 0; } } });
 		if (!fault) stat(accepted ? "huge-argument:accepted" : "huge-argument:refused");
 		return check(base, desc, 0, !accepted, true); }
 	case S_HUGE: {
@@ -922,13 +932,19 @@ template <int API> bool RawSys<API>::apply_x(const Inst &in)
 
 	switch (in.k) {
 	case X_APPEND: {
-		if (!pick(L, in.a, len) || (size_t) len > PATN) return false;
-		pos = used; mk("array::append", argcls(used, len, used, cap, false)); nontrivial(b);
+		bool own = in.b >= 2;
+		if (own) { if (!b || !used || b->_content_traits) return false; len = in.a ? 1 : (long) used; }
+		else if (!pick(L, in.a, len)) return false;
+		if ((size_t) len > PATN) return false;
+		const std::vector<uint8_t> add(own ? mb.begin() : mb.end(), own ? mb.begin() + len : mb.end());
+		pos = used; mk(in.b == 3 ? "array::operator+=" : "array::append", argcls(used, len, used, cap, false) + (own ? ",own-content" : "")); nontrivial(b);
 		void *ret = 0;
-		fault = guarded([&] { mc::Lib l; ret = arr(0)->append(len, in.b ? PAT : 0); });
+		if (in.b == 3) fault = guarded([&] { mc::Lib l; *arr(0) += mpt::span<uint8_t>((uint8_t *) arr(0)->base(), arr(0)->length()); ret = h[0].b && h[0].b->_used == used + len ? bdata(h[0].b) + used : 0; });
+		else fault = guarded([&] { mc::Lib l; ret = arr(0)->append(len, own ? arr(0)->base() : (in.b ? PAT : 0)); });
 		if (!fault && ret) {
 			realloc_seen();
-			mb.insert(mb.end(), in.b ? PAT : ZERO, (in.b ? PAT : ZERO) + len);
+			if (own) { mb.insert(mb.end(), add.begin(), add.end()); stat(used + len > cap ? "append-own-content,reallocating" : "append-own-content,in-place"); }
+			else mb.insert(mb.end(), in.b ? PAT : ZERO, (in.b ? PAT : ZERO) + len);
 			if (!check(base, desc, 0, false)) return false;
 			return ptr_ok(ret, used) ? true : bad_ptr(used);
 		}
@@ -1061,6 +1077,18 @@ template <int API> bool RawSys<API>::apply_x(const Inst &in)
 		if (!fault && ok && !must && (h[2].off != woff || h[2].len != wlen)) { V(base + "wrong-result", desc + fmt(": window off=%zu len=%zu, expected %zu/%zu", (size_t) h[2].off, (size_t) h[2].len, woff, wlen)); return false; }
 		if (!fault && !ok && (h[2].off != off || h[2].len != n)) { V(base + "refused-but-changed", desc + ": refused but the window moved"); return false; }
 		return check(base, desc, 2, !ok, must); }
+	case X_PREPARE: {
+		// reserving space in an encode_array without encoder (plain byte store on top of array) must keep the stored bytes
+		if (b && b->_content_traits) return false;
+		len = in.a ? (long) left + 1 : 1;
+		mk("encode_array::prepare", (size_t) len <= left ? "fits" : "exceeds-capacity"); nontrivial(b);
+		bool ok = false;
+		fault = guarded([&] { mc::Lib l; mpt::encode_array e;
+			e._d._buf._ref = (mpt::array::content *) h[0].b; h[0].b = 0;
+			ok = e.prepare(len);
+			h[0].b = e._d._buf._ref; e._d._buf._ref = 0; });
+		if (!fault) realloc_seen();
+		return check(base, desc, 0, !ok); }
 	case X_HUGE: {
 		static const char *on[] = { "array::insert", "array::append", "array::set", "array::insert" };
 		mk(on[in.a], "beyond-address-range"); nontrivial(b);
@@ -1265,8 +1293,10 @@ struct TSys {
 			mk("insert", p < 0 ? "before-start" : (p < n ? "inside" : (p == n ? "at-end" : "behind-gap")) + std::string(std::max(p, n) + 1 > cap ? ",exceeds-capacity" : "")); touched();
 			bool ok = false;
 			if (w == 0) fault = guarded([&] { mc::Lib l; ok = t(0)->insert(pos, 777); });
-			else fault = guarded([&] { mc::Lib l; int *e = u(2)->insert(pos); if (e) { *e = 777; ok = true; } });
-			if (!fault && ok && p >= 0) { moved(); if ((size_t) p > mv.size()) mv.resize(p, 0); mv.insert(mv.begin() + p, 777); }
+			// unique_array::insert(pos) hands out the new element: every second letter leaves it as constructed (a vector's emplace(pos) value-initialises)
+			bool assign = !(w == 2 && (in.b & 1));
+			if (w != 0) fault = guarded([&] { mc::Lib l; int *e = u(2)->insert(pos); if (e) { if (assign) *e = 777; ok = true; } });
+			if (!fault && ok && p >= 0) { moved(); if ((size_t) p > mv.size()) mv.resize(p, 0); mv.insert(mv.begin() + p, assign ? 777 : 0); if (!assign) stat("insert:new-element-left-as-constructed"); }
 			return check(base, desc, w, !ok, p < 0); }
 		case TK_SET: case TK_GET: {
 			long S[5] = { 0, n - 1, n, -1, -(n + 1) };
@@ -1684,6 +1714,164 @@ struct MSys {
 };
 
 
+
+// ---- reference_array<Obj> x3 (unique_array instantiation with reference elements; buffers cannot be copied, so modifiers on a shared buffer must refuse)
+struct RObj { int id; long refs; uintptr_t addref() { return ++refs; } void unref() { --refs; } };
+static RObj g_robj[4] = { { 0, 0 }, { 1, 0 }, { 2, 0 }, { 3, 0 } };
+enum QK { QK_INSERT, QK_SET, QK_CLEAR, QK_COMPACT, QK_ASSIGN, QK_SWAP };
+static std::vector<Inst> g_qtab;
+static void build_qtab()
+{
+	if (!g_qtab.empty()) return;
+	for (int i = 0; i < 2; ++i) for (int k = 0; k < 3; ++k) g_qtab.push_back(Inst{QK_INSERT, i, k, 0});
+	for (int i = 0; i < 2; ++i) for (int k = 0; k < 2; ++k) g_qtab.push_back(Inst{QK_SET, i, k, 0});
+	g_qtab.push_back(Inst{QK_CLEAR, 0, 0, 0}); g_qtab.push_back(Inst{QK_CLEAR, 1, 0, 0});
+	g_qtab.push_back(Inst{QK_COMPACT, 0, 0, 0});
+	for (int i = 0; i < 4; ++i) g_qtab.push_back(Inst{QK_ASSIGN, i, 0, 0});
+	g_qtab.push_back(Inst{QK_SWAP, 0, 0, 0});
+}
+struct QSys {
+	typedef mpt::reference_array<RObj> RA;
+	Run &r; Slots h; std::vector<int> m[3]; bool dead; int fault; size_t nap; const char *cur_opn;
+	RA *ra(int i) { return reinterpret_cast<RA *>(&h.p[i]); }
+	void V(const std::string &sig, const std::string &detail) { report(r, sig, detail); }
+	QSys(Run &run, uint64_t) : r(run), dead(false), fault(0), nap(0)
+	{
+		static_assert(sizeof(RA) == sizeof(void *), "reference_array layout");
+		warm(); build_qtab(); if (!g_child && !r.replaying) zygote_start();
+		ledger_base(); asan_error();
+		{ mc::Lib l; for (int i = 0; i < 3; ++i) new (&h.p[i]) RA(); }
+	}
+	~QSys()
+	{
+		if (dead) { g_suspect = true; return; }
+		guarded([&] { for (int i = 0; i < 3; ++i) ra(i)->~RA(); });
+	}
+	int nops() { return (int) g_qtab.size(); }
+	static int oid(RObj *o) { if (!o) return 0; for (int k = 1; k < 4; ++k) if (o == &g_robj[k]) return k; return 9; }
+	bool read(int i, std::vector<int> &out)
+	{
+		mpt::buffer *b = h.buf(i); out.clear();
+		if (!b || b->_used > b->_size || b->_used % sizeof(void *)) return false;
+		RObj **e = (RObj **) (b + 1);
+		for (size_t k = 0; k < b->_used / sizeof(void *); ++k) out.push_back(oid(e[k]));
+		return true;
+	}
+	std::string canon()
+	{
+		int g[3]; mpt::buffer *bs[3]; int n = h.groups(g, bs);
+		std::string s;
+		for (int j = 0; j < n; ++j) {
+			s += fmt("g%d", j) + tcanon(bs[j], sizeof(void *));
+			for (int i = 0; i < 3; ++i) if (g[i] == j) { std::vector<int> v; if (read(i, v)) s += vecs(v); break; }
+			s += " ";
+		}
+		for (int i = 0; i < 3; ++i) s += fmt("r%d=g%d ", i, g[i]);
+		return s;
+	}
+	bool check(const std::string &base, const std::string &desc, int w, bool refused)
+	{
+		if (fault) { V(base + signame(fault), desc + ": the call faulted"); dead = true; return false; }
+		if (asan_error()) { V(base + "memory-error", desc + ": access outside the buffer / freed memory (AddressSanitizer)"); dead = true; return false; }
+		statop(cur_opn, refused);
+		for (int pass = 0; pass < 2; ++pass) for (int i = 0; i < 3; ++i) {
+			if ((pass == 0) != (i != w)) continue;
+			const char *grp = i != w ? "other-handle-changed" : (refused ? "refused-but-changed" : "wrong-content");
+			std::vector<int> got;
+			if (!read(i, got)) { V(base + grp, desc + fmt(": reference_array%d has an invalid used size", i)); dead = true; return false; }
+			if (got != m[i]) { V(base + grp, desc + fmt(": reference_array%d reads %s, model %s (0 = empty reference)", i, vecs(got).c_str(), vecs(m[i]).c_str())); return false; }
+		}
+		size_t n = h.heap_groups(), live = ledger_live() - g_lbase;
+		if (live != n) { V(base + (live > n ? "leak" : "released-while-referenced"), desc + fmt(": %zu buffers allocated, %zu reachable from the handles", live, n)); if (live < n) dead = true; return false; }
+		return true;
+	}
+	std::string opname(int op)
+	{
+		const Inst &in = g_qtab[op];
+		static const char *as[] = { "r0=r1", "r1=r0", "r0=reference_array()", "r2=r0" };
+		switch (in.k) {
+		case QK_INSERT: return fmt("r0.insert(%s,%s)", in.a ? "n" : "0", in.b ? fmt("&obj%d", in.b).c_str() : "null");
+		case QK_SET: return fmt("r0.set(%s,%s)", in.a ? "n-1" : "0", in.b ? "&obj3" : "null");
+		case QK_CLEAR: return in.a ? "r0.clear(&obj1)" : "r0.clear()";
+		case QK_COMPACT: return "r0.compact()";
+		case QK_ASSIGN: return as[in.a];
+		case QK_SWAP: return "swap(r0,r1)";
+		}
+		return "?";
+	}
+	bool apply(int op)
+	{
+		const Inst &in = g_qtab[op];
+		fault = 0; asan_error();
+		if (in.k == QK_SWAP) { ++nap; if (h.p[0] == h.p[1]) return false; std::swap(h.p[0], h.p[1]); std::swap(m[0], m[1]); return true; }
+		std::string name = opname(op), hint = name.substr(0, name.find('('));
+		r.hint(hint.c_str());
+		bool frontier = r.cur.size() == nap + 2; ++nap;
+		if (frontier && g_expired) return false;
+		std::string pre = canon();
+		if (frontier && !screened(r, 'r', fnv(pre.data(), pre.size(), 55 + op), hint, name + " in state " + pre)) return false;
+		++r.executions;
+		mpt::buffer *b = h.buf(0);
+		long n = b ? (long) (b->_used / sizeof(void *)) : 0;
+		bool shared = b && heap_buf(b) && (b->get_flags() & mpt::BufferShared);
+		std::string st = tstate(b), base, desc;
+		auto mk = [&](const char *opn, const std::string &arg) { cur_opn = opn; base = std::string(opn) + "|" + st + "|" + arg + "|"; desc = name + " in state " + pre; r.note("%s", desc.c_str()); if (shared) { r.count("nontrivial"); stat("target-shared-or-immutable"); } };
+		std::vector<int> &mv = m[0];
+		switch (in.k) {
+		case QK_INSERT: {
+			if (n >= 5) return false;
+			long pos = in.a ? n : 0;
+			if (in.a && !n) return false;
+			mk("reference_array::insert", in.b ? "object" : "null");
+			bool ok = false;
+			fault = guarded([&] { mc::Lib l; ok = ra(0)->insert(pos, in.b ? &g_robj[in.b] : 0); });
+			if (!fault && ok) mv.insert(mv.begin() + pos, in.b);
+			return check(base, desc, 0, !ok); }
+		case QK_SET: {
+			if (!n || (in.a && n < 2)) return false;
+			long pos = in.a ? n - 1 : 0;
+			mk("reference_array::set", in.b ? "object" : "null");
+			bool ok = false;
+			fault = guarded([&] { mc::Lib l; ok = ra(0)->set(pos, in.b ? &g_robj[3] : 0); });
+			if (!fault && ok) { mv[pos] = in.b ? 3 : 0; if (shared) stat("modifier-on-shared-buffer:accepted"); }
+			if (!fault && !ok && shared) stat("modifier-on-shared-buffer:refused");
+			return check(base, desc, 0, !ok); }
+		case QK_CLEAR: {
+			long want = 0; std::vector<int> after = mv;
+			for (int &v : after) if (v && (!in.a || v == 1)) { v = 0; ++want; }
+			if (!want) return false;
+			mk("reference_array::clear", in.a ? "one-object" : "all");
+			long got = -1;
+			fault = guarded([&] { mc::Lib l; got = ra(0)->clear(in.a ? &g_robj[1] : 0); });
+			bool refused = got <= 0;      // nothing cleared although references match: refusal (no private copy available)
+			if (!fault && !refused) { mv = after; if (got != want) { V(base + "wrong-result", desc + fmt(": returned %ld, expected %ld", got, want)); return false; } }
+			if (!fault && shared) stat(refused ? "modifier-on-shared-buffer:refused" : "modifier-on-shared-buffer:accepted");
+			return check(base, desc, 0, refused); }
+		case QK_COMPACT: {
+			std::vector<int> after; for (int v : mv) if (v) after.push_back(v);
+			if (after.size() == mv.size() || std::equal(after.begin(), after.end(), mv.begin())) return false;
+			after.resize(mv.size(), 0);
+			mk("reference_array::compact", "-");
+			fault = guarded([&] { mc::Lib l; ra(0)->compact(); });
+			std::vector<int> got; bool refused = !fault && read(0, got) && got == mv;      // no result is reported: unchanged = refused
+			if (!fault && !refused) mv = after;
+			if (!fault && shared) stat(refused ? "modifier-on-shared-buffer:refused" : "modifier-on-shared-buffer:accepted");
+			return check(base, desc, 0, refused); }
+		case QK_ASSIGN: {
+			int d, s;
+			switch (in.a) { case 0: d = 0; s = 1; break; case 1: d = 1; s = 0; break; case 2: d = 0; s = -1; break; default: d = 2; s = 0; }
+			if (s >= 0 && h.p[d] == h.p[s]) return false;
+			if (s < 0 && !heap_buf(h.buf(d))) return false;
+			st = tstate(h.buf(d));
+			mk("assign", s < 0 ? "fresh" : "copy");
+			fault = guarded([&] { mc::Lib l; if (s >= 0) *ra(d) = *ra(s); else *ra(d) = RA(); });
+			if (!fault) { if (s >= 0) m[d] = m[s]; else m[d].clear(); }
+			return check(base, desc, d, false); }
+		}
+		return false;
+	}
+};
+
 static std::string raw_opname(int fam, int op)
 {
 	return fam == 0 ? RawSys<0>::opname(op) : RawSys<1>::opname(op);
@@ -1706,6 +1894,7 @@ static std::string run_case(char fam, const Vec &v)
 	case 't': return run_case_t<TSys>(v);
 	case 'p': return run_case_t<PSys>(v);
 	case 'm': return run_case_t<MSys>(v);
+	case 'r': return run_case_t<QSys>(v);
 	}
 	return "OK";
 }
@@ -1727,12 +1916,13 @@ static int depth_of(Tier t, char fam, uint64_t init)
 	case 't': return t == Quick ? 5 : 6;
 	case 'p': return t == Quick ? 5 : 6;
 	case 'm': return t == Quick ? 6 : 7;
+	case 'r': return t == Quick ? 5 : 7;
 	}
 	return 3;
 }
 void mc_jobs(Tier t, std::vector<std::string> &jobs)
 {
-	jobs.push_back("t:0"); jobs.push_back("p:0"); jobs.push_back("m:0");      // short jobs first: they are not cut off when a defective tree slows the byte families down
+	jobs.push_back("t:0"); jobs.push_back("p:0"); jobs.push_back("m:0"); jobs.push_back("r:0");      // short jobs first: they are not cut off when a defective tree slows the byte families down
 	for (const char *fam : { "c", "x" }) {
 		jobs.push_back(std::string(fam) + ":0");
 		for (int fill = 0; fill < 2; ++fill) for (int tr = 0; tr < 3; ++tr) for (int fl = 0; fl < 4; ++fl) {
@@ -1756,16 +1946,17 @@ static void required(Run &r, char fam)
 		"slice-write:compaction,shorter-than-old-data", "slice-write:compaction,longer-than-old-data",
 		"typed-elements:aligned,ok", "typed-elements:aligned,refused", "typed-elements:misaligned,refused",
 		"buffer_detach:ok", "buffer_detach:refused", "detach:content-cut(not flagged)", "detach:request-more-than-a-unit-below-used", "set:front-of-large-content",
-		"huge-argument:refused", "reserve:same-type,private-copy-keeps-content", 0 };
+		"huge-argument:refused", "reserve:same-type,private-copy-keeps-content", "append-own-content,in-place", "append-own-content,reallocating", 0 };
 	static const char *x[] = { "array::append:ok", "array::insert:ok", "array::insert:refused", "array::set:ok", "array::operator=:ok", "array::operator=(slice):ok", "array::operator+=:ok", "printf:ok",
 		"slice::shift:ok", "slice::shift:refused", "slice::trim:ok", "slice::trim:refused", "slice_write:ok", "reallocated", "target-shared-or-immutable",
 		"slice-write:consumed-window,sole", "slice-write:consumed-window,shared", "slice-write:compaction,shorter-than-old-data",
-		"huge-argument:refused", "append-own-content,in-place", "append-own-content,reallocating", 0 };
+		"huge-argument:refused", "append-own-content,in-place", "append-own-content,reallocating", "encode_array::prepare:ok", 0 };
 	static const char *t[] = { "insert:ok", "insert:refused", "set:ok", "set:refused", "get:ok", "get:refused", "resize:ok", "resize:refused", "reserve:ok", "detach:ok", "assign:ok", "reallocated", "target-shared-or-immutable",
-		"insert-own-element,in-place", "insert-own-element,reallocating", "index-beyond-address-range:refused", 0 };
+		"insert-own-element,in-place", "insert-own-element,reallocating", "index-beyond-address-range:refused", "insert:new-element-left-as-constructed", 0 };
 	static const char *p[] = { "pointer_array::insert:ok", "pointer_array::set:ok", "pointer_array::compact:ok", "pointer_array::swap:ok", "pointer_array::swap:refused", "assign:ok", "target-shared-or-immutable", "swap-on-shared-buffer", 0 };
 	static const char *m[] = { "map::set:ok", "map::append:ok", "map::get:ok", "map::values:ok", "assign:ok", "target-shared-or-immutable", 0 };
-	const char **k = fam == 'c' ? c : (fam == 'x' ? x : (fam == 't' ? t : (fam == 'p' ? p : m)));
+	static const char *q[] = { "reference_array::insert:ok", "reference_array::set:ok", "reference_array::clear:ok", "reference_array::compact:ok", "assign:ok", "target-shared-or-immutable", 0 };
+	const char **k = fam == 'c' ? c : (fam == 'x' ? x : (fam == 't' ? t : (fam == 'p' ? p : (fam == 'r' ? q : m))));
 	for (; *k; ++k) r.require(std::string(1, fam) + ":" + *k);
 }
 void mc_explore(Run &r, const std::string &job)
@@ -1779,6 +1970,7 @@ void mc_explore(Run &r, const std::string &job)
 	else if (fam == 't') bfs_histories<TSys>(r, inits, depth_of(r.tier, fam, init));
 	else if (fam == 'p') bfs_histories<PSys>(r, inits, depth_of(r.tier, fam, init));
 	else if (fam == 'm') bfs_histories<MSys>(r, inits, depth_of(r.tier, fam, init));
+	else if (fam == 'r') bfs_histories<QSys>(r, inits, depth_of(r.tier, fam, init));
 	for (auto &kv : st.merged()) r.count(std::string(1, fam) + ":" + kv.first, kv.second);
 	g_stats = 0;
 }
@@ -1790,4 +1982,5 @@ void mc_replay(Run &r, const std::string &job, const Vec &v)
 	else if (fam == 't') bfs_replay<TSys>(r, v);
 	else if (fam == 'p') bfs_replay<PSys>(r, v);
 	else if (fam == 'm') bfs_replay<MSys>(r, v);
+	else if (fam == 'r') bfs_replay<QSys>(r, v);
 }
